@@ -1,8 +1,8 @@
 (* Proofs/TraceFull.v — C05, unbounded and for EVERY spec shape of the model (tuple chains and Switch included): the trace the
-   breadcrumb machine renders is the structural reading.  Generalises Proofs/TraceGeneral.v: frames may be NO_PYFRAME-marked, a
+   breadcrumb machine renders is the structural reading: frames may be NO_PYFRAME-marked, a
    failure walks up the marked frames (nopy_walk), chained steps hang under each other and have their top frames rewritten. *)
 From Coq Require Import Bool Lia List Arith Wf_nat.
-From Glom Require Import Model.Trace Spec.TraceSpec Proofs.TraceProofs Proofs.TraceGeneral.
+From Glom Require Import Model.Trace Spec.TraceSpec Proofs.TraceProofs Proofs.TraceLib.
 Import ListNotations.
 Local Open Scope list_scope.
 
@@ -127,6 +127,9 @@ Proof.
 Qed.
 
 (* ---------- the structural raw descent, all shapes ---------- *)
+(* a finished step / a passed key with what hangs under it: _unpack_stack goes on below it only while the error is recorded there *)
+Definition under (sid t : nat) (r : out) (body : list tr) : list tr :=
+  match r with Ret _ => [TR sid t None []] | Exc e => TR sid t (Some e) [] :: body end.
 Section RawF.
   Variable rec : tspec -> nat -> out * list tr.
   (* the descent from the frame of the first step: finished steps show as bare entries (their own branches are forgiven), the
@@ -138,7 +141,7 @@ Section RawF.
     | s :: rest => match rec s res with
                    | (Exc e, rs) => (Exc e, rs)
                    | (Ret v, _) => match chain_raw v rest with
-                                   | (r, body) => (r, TR (sid_of s) res (err_of r) [] :: body) end end end.
+                                   | (r, body) => (r, under (sid_of s) res r body) end end end.
   (* Switch: failing keys are failed branches; the value spec of the first key that passes hangs under that key *)
   Fixpoint switch_raw (own t : nat) (cs : list (tspec * tspec)) (k : kids) : out * kids :=
     match cs with
@@ -146,7 +149,7 @@ Section RawF.
     | (key, v) :: rest => match rec key t with
                           | (Exc _, rk) => switch_raw own t rest (k_fail k rk)
                           | (Ret _, _) => match rec v t with
-                                          | (r, rv) => (r, k_after k r (TR (sid_of key) t (err_of r) [] :: rv)) end end end.
+                                          | (r, rv) => (r, k_after k r (under (sid_of key) t r rv)) end end end.
 End RawF.
 
 Fixpoint rawF (fuel : nat) (s : tspec) (t : nat) : out * list tr :=
@@ -173,6 +176,9 @@ Fixpoint rawF (fuel : nat) (s : tspec) (t : nat) : out * list tr :=
                             | (r, body) => (r, assemble n t (err_of r) (k_after k0 r body)) end end
   | Switch n cs => match switch_raw (rawF fuel) (5000 + n) t cs k0 with
                    | (r, k) => (r, assemble n t (err_of r) k) end
+  | AltD n l => match alt_raw (rawF fuel) t l k0 with
+                | (Some v, k) => (Ret v, assemble n t None k)
+                | (None, k) => (Ret (3000 + n), assemble n t None k) end
   end end.
 
 (* ---------- what an evaluation (or a group of evaluations acting as one child) guarantees ---------- *)
@@ -180,7 +186,8 @@ Definition childstep (st : store) (p : nat) (st' : store) (r : out) (rawc : list
   let c := List.length st in
   c < List.length st' /\ WF st' /\ same_below c st' (eff st p c r) /\ closed st' c (List.length st') /\
   (forall st'' kd kr, agree c (List.length st') st' st'' -> List.length st' <= List.length st'' ->
-                      List.length st' - c <= kd -> List.length st' - c <= kr -> RD kd kr st'' c = rawc).
+                      List.length st' - c <= kd -> List.length st' - c <= kr -> RD kd kr st'' c = rawc) /\
+  f_err (get st' c) = err_of r.
 
 Definition topfacts (st' : store) (c sid t p : nat) (r : out) : Prop :=
   f_spec (get st' c) = sid /\ f_target (get st' c) = t /\ f_up (get st' c) = p /\ f_nopy (get st' c) = false /\
@@ -210,7 +217,8 @@ Record invF (base : store) (sid t p f : nat) (st : store) (k : kids) (lc : optio
   j_ft : Forall2 (fun c tr => forall st'' k', agree (S f) (fbound st k lc) st st'' -> List.length st <= List.length st'' ->
                               List.length st - f <= k' -> render k' st'' c = tr) fc (k_ft k);
   j_lr : forall c, lc = Some c -> forall st'' kd kr, agree (S f) (List.length st) st st'' -> List.length st <= List.length st'' ->
-         List.length st - S f <= kd -> List.length st - S f <= kr -> RD kd kr st'' c = k_lr k }.
+         List.length st - S f <= kd -> List.length st - S f <= kr -> RD kd kr st'' c = k_lr k;
+  j_lerr : forall c, lc = Some c -> is_some (f_err (get st c)) = k_lf k }.
 
 (* one more child under f: an evaluation, or anything that acts like one *)
 Lemma invF_step base sid t p f st k lc fc st_b r_b rawc :
@@ -218,7 +226,7 @@ Lemma invF_step base sid t p f st k lc fc st_b r_b rawc :
   invF base sid t p f st_b (k_after k r_b rawc) (Some (List.length st))
        (match r_b with Ret _ => fc | Exc _ => fc ++ [List.length st] end).
 Proof.
-  intros I (Hlen & Hwf & Hsb & Hcl & Hrd).
+  intros I (Hlen & Hwf & Hsb & Hcl & Hrd & Herr).
   set (c := List.length st) in *.
   assert (Hfc : f < c) by exact (j_len _ _ _ _ _ _ _ _ _ I).
   assert (Hnf : f_nopy (get st f) = false) by (rewrite (j_f _ _ _ _ _ _ _ _ _ I); reflexivity).
@@ -266,9 +274,10 @@ Proof.
   - intros x Hx st'' kd kr Ha Hl Hkd Hkr. injection Hx as <-.
     replace (k_lr (k_after k r_b rawc)) with rawc by (destruct r_b; reflexivity).
     apply Hrd; [eapply agree_sub; [exact Ha|lia|lia]|lia|lia|lia].
+  - intros x Hx. injection Hx as <-. rewrite Herr. destruct r_b; reflexivity.
 Qed.
 
-(* the raw descent at f, once its children are described by k (as in TraceGeneral) *)
+(* the raw descent at f, once its children are described by k *)
 Lemma invF_assemble base sid t p f st k lc fc err st'' kd kr :
   invF base sid t p f st k lc fc ->
   agree (S f) (List.length st) st st'' -> get st'' f = mkF sid t p lc fc err false ->
@@ -290,8 +299,13 @@ Proof.
     assert (Hlr : map (toTR (render kr st'')) (descend kd st'' child) = k_lr k).
     { apply (j_lr _ _ _ _ _ _ _ _ _ I child eq_refl st'' kd kr Ha Hl); lia. }
     pose proof (j_lf _ _ _ _ _ _ _ _ _ I child eq_refl) as Hlf.
+    pose proof (j_lerr _ _ _ _ _ _ _ _ _ I child eq_refl) as Hle.
+    assert (Hch : get st'' child = get st child).
+    { apply Ha. specialize (j_lc _ _ _ _ _ _ _ _ _ I child eq_refl). lia. }
+    rewrite Hch.
     destruct (k_lf k).
     + destruct Hlf as (fc' & -> & Hlt).
+      destruct (f_err (get st child)) as [ec|]; [|discriminate].
       destruct fc' as [|a fc'].
       * (* the single failed branch is the last child: a straight line *)
         cbn [app]. rewrite Nat.eqb_refl. cbn [existsb].
@@ -307,14 +321,16 @@ Proof.
         cbn [map]. unfold toTR at 1. cbn [e_spec e_target e_err e_branches]. rewrite Hbr.
         destruct (k_ft k) as [|x [|y r]]; cbn in L2; try lia. reflexivity.
     + pose proof (existsb_eqb_false child fc Hlf) as Hex.
+      destruct (f_err (get st child)) as [ec|]; [discriminate|].
+      cbn [andb].
       destruct fc as [|c0 [|c1 r]].
       * cbn [existsb]. cbn [map] in Hbr. rewrite <- Hbr.
-        cbn [map]. unfold toTR at 1. cbn [map e_spec e_target e_err e_branches]. rewrite Hlr. reflexivity.
+        cbn [map]. unfold toTR at 1. cbn [map e_spec e_target e_err e_branches]. reflexivity.
       * replace (Nat.eqb c0 child) with false
           by (symmetry; apply Nat.eqb_neq; specialize (Hlf c0 (or_introl eq_refl)); lia).
-        rewrite Hex. cbn [map]. unfold toTR at 1. cbn [e_spec e_target e_err e_branches]. rewrite Hbr, Hlr.
+        rewrite Hex. cbn [map]. unfold toTR at 1. cbn [e_spec e_target e_err e_branches]. rewrite Hbr.
         cbn [map] in Hbr. rewrite <- Hbr. reflexivity.
-      * rewrite Hex. cbn [map]. unfold toTR at 1. cbn [e_spec e_target e_err e_branches]. rewrite Hbr, Hlr.
+      * rewrite Hex. cbn [map]. unfold toTR at 1. cbn [e_spec e_target e_err e_branches]. rewrite Hbr.
         cbn [map] in Hbr. rewrite <- Hbr. reflexivity.
   - destruct (j_none _ _ _ _ _ _ _ _ _ I eq_refl) as [-> Hft]. cbn [negb]. reflexivity.
 Qed.
@@ -370,7 +386,8 @@ Proof.
     unfold st4. rewrite get_upd_eq by (rewrite upd_length; exact Hlen). rewrite get_upd_ne by lia.
     rewrite (j_f _ _ _ _ _ _ _ _ _ I). reflexivity. }
   split.
-  - unfold childstep. rewrite <- Hf. rewrite Hl. split; [exact Hlen|]. split; [|split; [|split]].
+  - unfold childstep. rewrite <- Hf. rewrite Hl. split; [exact Hlen|]. split; [|split; [|split; [|split]]].
+    5: { rewrite Hff. reflexivity. }
     + unfold st'. destruct r; [exact Wst|]. apply WF_walk. apply W4.
     + (* the old frames *)
       unfold st', eff. destruct r as [v|e].
@@ -520,7 +537,7 @@ Proof.
       (match rawF fuel s res with
        | (Exc e, rs) => (Exc e, rs)
        | (Ret v, _) => match chain_raw (rawF fuel) v (s2 :: rest) with
-                       | (r, body) => (r, TR (sid_of s) res (err_of r) [] :: body) end end).
+                       | (r, body) => (r, under (sid_of s) res r body) end end).
     destruct (rawF fuel s res) as [o1 rs1]. cbn [fst snd] in Hr1, Hcs1. subst o1.
     destruct r1 as [v|e].
     2:{ injection E as <- <-. split; [exact Hcs1|reflexivity]. }
@@ -538,7 +555,7 @@ Proof.
     { unfold chain_child. rewrite Hpar1. reflexivity. }
     rewrite Ecc2 in IHs. cbn [fst snd] in IHs.
     destruct (chain_raw (rawF fuel) v (s2 :: rest)) as [o2 body2]. cbn [fst snd] in IHs.
-    destruct IHs as ((Hlen2 & W2 & Hsb2 & Hcl2 & Hrd2) & ->).
+    destruct IHs as ((Hlen2 & W2 & Hsb2 & Hcl2 & Hrd2 & Herr2) & ->).
     set (stm2 := upd st1 c1 mark_chain) in *.
     assert (Lm2 : List.length stm2 = List.length st1) by apply upd_length.
     rewrite Lm2 in *.
@@ -570,7 +587,8 @@ Proof.
       - unfold eff. rewrite get_upd_ne by lia. unfold stm2. apply get_upd_ne. lia.
       - unfold eff. fold X. rewrite walk_above by (try apply WX; lia). unfold X. rewrite get_upd_ne by lia. unfold stm2. apply get_upd_ne. lia. }
     split; [|reflexivity]. unfold childstep. fold c1. cbn [snd].
-    split; [lia|]. split; [exact W2|]. split; [|split].
+    split; [lia|]. split; [exact W2|]. split; [|split; [|split]].
+    4: { rewrite Hc1. reflexivity. }
     + (* the old frames *)
       intros i Hi. rewrite (Hsb2 i ltac:(lia)). destruct o2 as [v2|e].
       * unfold eff. rewrite get_upd_ne by lia. unfold stm2. rewrite get_upd_ne by lia. apply Hsb1'. exact Hi.
@@ -605,7 +623,8 @@ Proof.
       assert (Hbr : match (match o2 with Ret _ => [] | Exc _ => [c2] end) with
                     | [c] => if Nat.eqb c c2 then [] else [c] | l => l end = (@nil nat)).
       { destruct o2; [reflexivity|]. rewrite Nat.eqb_refl. reflexivity. }
-      rewrite Hbr. cbn [existsb map]. unfold toTR at 1. cbn [e_spec e_target e_err e_branches map].
+      rewrite Hbr. cbn [existsb]. rewrite (Ha c2 ltac:(lia)), Herr2.
+      destruct o2 as [v2|e2]; cbn [err_of under map]; unfold toTR at 1; cbn [e_spec e_target e_err e_branches map]; [reflexivity|].
       f_equal. apply (Hrd2 st'' kd kr); [eapply agree_sub; [exact Ha|lia|lia]|lia|lia|lia].
 Qed.
 
@@ -617,7 +636,7 @@ Lemma invF_value_step fuel (IH : goodF fuel) base sid t p f st k1 kf fc sidk v s
   tdepth v < fuel ->
   glom_ fuel (upd st kf mark_chain) kf t v = (st', r) ->
   r = fst (rawF fuel v t) /\
-  invF base sid t p f st' (k_after k1 r (TR sidk t (err_of r) [] :: snd (rawF fuel v t))) (Some kf)
+  invF base sid t p f st' (k_after k1 r (under sidk t r (snd (rawF fuel v t)))) (Some kf)
        (match r with Ret _ => fc | Exc _ => fc ++ [kf] end).
 Proof.
   intros I Hlf Ksp Ktg Kup Ker Hd E.
@@ -627,7 +646,7 @@ Proof.
   set (stm := upd st kf mark_chain) in *.
   assert (Wm : WF stm) by (unfold stm; apply WF_upd; [reflexivity|intros ->; lia|exact (j_wf _ _ _ _ _ _ _ _ _ I)]).
   assert (Lm : List.length stm = List.length st) by apply upd_length.
-  destruct (IH stm kf t v st' r Hd ltac:(lia) Wm E) as ((Hlen' & W' & Hsb & Hcl & Hrd) & Hr & _).
+  destruct (IH stm kf t v st' r Hd ltac:(lia) Wm E) as ((Hlen' & W' & Hsb & Hcl & Hrd & Herr) & Hr & _).
   rewrite Lm in *. set (vf := List.length st) in *.
   split; [exact Hr|].
   destruct (get st kf) as [sp tg up la ce er np] eqn:G. cbn in Ksp, Ktg, Kup, Ker. subst sp tg up er.
@@ -660,13 +679,14 @@ Proof.
   (* the descent at the key's frame: its bare entry, then the value's *)
   assert (Hrdk : forall st'' kd kr, agree (S f) (List.length st') st' st'' -> List.length st' <= List.length st'' ->
             List.length st' - S f <= kd -> List.length st' - S f <= kr ->
-            RD kd kr st'' kf = TR sidk t (err_of r) [] :: snd (rawF fuel v t)).
+            RD kd kr st'' kf = under sidk t r (snd (rawF fuel v t))).
   { intros st'' kd kr Ha Hl2 Hkd Hkr. destruct kd as [|kd]; [lia|].
     unfold RD. cbn [descend]. rewrite (Ha kf ltac:(lia)), Hkf'. cbn [f_last f_spec f_target f_err f_cerrs].
     assert (Hbr : match (match r with Ret _ => [] | Exc _ => [vf] end) with
                   | [c] => if Nat.eqb c vf then [] else [c] | l => l end = (@nil nat)).
     { destruct r; [reflexivity|]. rewrite Nat.eqb_refl. reflexivity. }
-    rewrite Hbr. cbn [existsb map]. unfold toTR at 1. cbn [e_spec e_target e_err e_branches map].
+    rewrite Hbr. cbn [existsb]. rewrite (Ha vf ltac:(lia)), Herr.
+    destruct r as [v2|e2]; cbn [err_of under map]; unfold toTR at 1; cbn [e_spec e_target e_err e_branches map]; [reflexivity|].
     f_equal. apply (Hrd st'' kd kr); [eapply agree_sub; [exact Ha|lia|lia]|lia|lia|lia]. }
   constructor.
   - lia.
@@ -703,9 +723,10 @@ Proof.
       intros st'' k' Ha Hl Hk. destruct k' as [|k'']; [lia|].
       rewrite render_unfold. f_equal. apply Hrdk; [exact Ha|lia|lia|lia].
   - intros x Hx st'' kd kr Ha Hl Hkd Hkr. injection Hx as <-.
-    replace (k_lr (k_after k1 r (TR sidk t (err_of r) [] :: snd (rawF fuel v t)))) with (TR sidk t (err_of r) [] :: snd (rawF fuel v t))
+    replace (k_lr (k_after k1 r (under sidk t r (snd (rawF fuel v t))))) with (under sidk t r (snd (rawF fuel v t)))
       by (destruct r; reflexivity).
     apply Hrdk; assumption.
+  - intros x Hx. injection Hx as <-. rewrite Hkf'. destruct r; reflexivity.
 Qed.
 
 Lemma switch_loop_inv fuel (IH : goodF fuel) base sid t p f own : forall cs st k lc fc st' r,
@@ -772,6 +793,7 @@ Proof.
     - intros _. split; reflexivity.
     - intros c Hc. discriminate Hc.
     - constructor.
+    - intros c Hc. discriminate Hc.
     - intros c Hc. discriminate Hc. }
   assert (Tail : forall st2 r2 k lc fc,
              invF st1 (sid_of s) t p f st2 k lc fc ->
@@ -790,7 +812,7 @@ Proof.
     rewrite Hraw. cbn [fst snd].
     destruct (finalizeF st1 (sid_of s) t p f st2 k lc fc st r2 I2 Hp eq_refl W Hp1 Ho1) as [A B].
     split; [exact A|]. split; [reflexivity|exact B]. }
-  destruct s as [n ok|n|n l|n l|n l|n l|n cs|n ok kid]; cbn [sid_of] in *.
+  destruct s as [n ok|n|n l|n l|n l|n l|n cs|n ok kid|n l]; cbn [sid_of] in *.
   - destruct ok.
     + apply (Tail st1 (Ret (2000 + n)) k0 None [] I0 E). reflexivity.
     + apply (Tail st1 (Exc n) k0 None [] I0 E). reflexivity.
@@ -852,13 +874,20 @@ Proof.
         cbn [rawF]. destruct (rawF fuel kid t) as [o rk]. cbn [fst snd] in *. subst o. reflexivity.
     + apply (Tail st2 (Exc e) _ _ _ I2 E).
       cbn [rawF]. destruct (rawF fuel kid t) as [o rk]. cbn [fst snd] in *. subst o. reflexivity.
+  - (* AltD *)
+    cbn [tdepth] in Hd.
+    assert (Hdl : forall x, In x l -> tdepth x < fuel) by (intros x Hx; pose proof (depth_in l x Hx); lia).
+    destruct (alt_loop (glom_ fuel) 0 st1 f t l) as [st2 r2] eqn:Eb.
+    destruct (alt_loop_inv fuel IH st1 n t p f 0 l st1 k0 None [] st2 r2 I0 Hdl Eb) as (k' & lc' & fc' & I2 & Hm).
+    destruct (alt_raw (rawF fuel) t l k0) as [[v|] k2] eqn:Eraw; destruct Hm as [-> ->].
+    + apply (Tail st2 (Ret v) k2 lc' fc' I2 E). cbn [rawF]. rewrite Eraw. reflexivity.
+    + apply (Tail st2 (Ret (3000 + n)) k2 lc' fc' I2 E). cbn [rawF]. rewrite Eraw. reflexivity.
 Qed.
 
 (* ---------- stage 2 for all shapes: push-down and trim applied to the raw descent give the structural reading ---------- *)
 Definition sound2F (fuel : nat) : Prop := forall s t,
   tdepth s < fuel -> wf s ->
   fst (rawF fuel s t) = fst (fst (exp fuel s t)) /\
-  (forall v, fst (rawF fuel s t) = Ret v -> all_none (snd (rawF fuel s t))) /\
   (forall e, fst (rawF fuel s t) = Exc e ->
      finish (snd (rawF fuel s t)) = snd (fst (exp fuel s t)) /\ snd (exp fuel s t) = e /\
      head_err (snd (rawF fuel s t)) = Some e /\ raised e (sids s)).
@@ -884,13 +913,13 @@ Section Loops2F.
     induction l as [|x l IHl]; intros k S Hk Hi Hs Hft Hlf; cbn [nest_raw nest_exp].
     - split; [reflexivity|]. split; [exact Hs|]. split; assumption.
     - destruct (Hk x (or_introl eq_refl)) as (Hd & Hw).
-      destruct (IH x t Hd Hw) as (Ho & Hok & Hex).
+      destruct (IH x t Hd Hw) as (Ho & Hex).
       destruct (rawF fuel x t) as [o rx]. destruct (exp fuel x t) as [[o' tx] ex]. cbn [fst snd] in *. subst o'.
       destruct o as [v|e].
       + apply IHl.
         * apply (kids_okF_tail x l Hk).
         * intros y Hy. apply Hi. cbn [flat_map]. apply in_or_app. right. exact Hy.
-        * apply kstate_ok. apply (Hok v eq_refl).
+        * apply kstate_ok.
         * exact Hft.
         * reflexivity.
       + destruct (Hex e eq_refl) as (Hfin & -> & Hhd & Hra).
@@ -910,15 +939,15 @@ Section Loops2F.
     induction l as [|x l IHl]; intros k S Hk Hi Hs; cbn [alt_raw alt_exp].
     - split; [reflexivity|exact Hs].
     - destruct (Hk x (or_introl eq_refl)) as (Hd & Hw).
-      destruct (IH x t Hd Hw) as (Ho & Hok & Hex).
+      destruct (IH x t Hd Hw) as (Ho & Hex).
       destruct (rawF fuel x t) as [o rx]. destruct (exp fuel x t) as [[o' tx] ex]. cbn [fst snd] in *. subst o'.
       assert (Hi' : incl (flat_map sids l) S).
       { intros y Hy. apply Hi. cbn [flat_map]. apply in_or_app. right. exact Hy. }
       destruct o as [v|e].
       + destruct (Nat.eqb v 0).
-        * specialize (IHl (k_ok k rx) S (kids_okF_tail x l Hk) Hi' (kstate_ok k S rx (Hok v eq_refl))).
+        * specialize (IHl (k_ok k rx) S (kids_okF_tail x l Hk) Hi' (kstate_ok k S rx)).
           cbn [k_ok k_ft k_lf] in IHl. exact IHl.
-        * cbn [fst]. split; [reflexivity|]. split; [apply kstate_ok; apply (Hok v eq_refl)|reflexivity].
+        * cbn [fst]. split; [reflexivity|]. split; [apply kstate_ok|reflexivity].
       + destruct (Hex e eq_refl) as (Hfin & _ & Hhd & Hra).
         assert (Hra' : raised e S).
         { eapply raised_incl; [exact Hra|]. intros y Hy. apply Hi. cbn [flat_map]. apply in_or_app. left. exact Hy. }
@@ -934,7 +963,7 @@ Section Loops2F.
   Proof.
     induction l as [|x l IHl]; intros k S last Hne Hk Hi Hs; [congruence|].
     destruct (Hk x (or_introl eq_refl)) as (Hd & Hw).
-    destruct (IH x t Hd Hw) as (Ho & Hok & Hex).
+    destruct (IH x t Hd Hw) as (Ho & Hex).
     assert (Hi' : incl (flat_map sids l) S).
     { intros y Hy. apply Hi. cbn [flat_map]. apply in_or_app. right. exact Hy. }
     assert (Hix : incl (sids x) S).
@@ -943,7 +972,7 @@ Section Loops2F.
     - cbn [or_raw or_exp].
       destruct (rawF fuel x t) as [o rx]. destruct (exp fuel x t) as [[o' tx] ex]. cbn [fst snd] in *. subst o'.
       destruct o as [v|e].
-      + cbn [fst]. split; [reflexivity|]. split; [apply kstate_ok; apply (Hok v eq_refl)|reflexivity].
+      + cbn [fst]. split; [reflexivity|]. split; [apply kstate_ok|reflexivity].
       + destruct (Hex e eq_refl) as (Hfin & -> & Hhd & Hra).
         pose proof (raised_incl _ _ _ Hra Hix) as Hra'.
         cbn [k_fail k_ft k_lf k_lr]. rewrite Hfin. split; [reflexivity|]. split; [apply (kstate_fail k S rx e Hhd Hra')|].
@@ -956,7 +985,7 @@ Section Loops2F.
          | (Exc e, trb, eb) => or_exp (exp fuel) t (y :: l) (k_ft k ++ [trb]) (e, eb) end).
       destruct (rawF fuel x t) as [o rx]. destruct (exp fuel x t) as [[o' tx] ex]. cbn [fst snd] in *. subst o'.
       destruct o as [v|e].
-      + cbn [fst]. split; [reflexivity|]. split; [apply kstate_ok; apply (Hok v eq_refl)|reflexivity].
+      + cbn [fst]. split; [reflexivity|]. split; [apply kstate_ok|reflexivity].
       + destruct (Hex e eq_refl) as (Hfin & -> & Hhd & Hra).
         pose proof (raised_incl _ _ _ Hra Hix) as Hra'.
         specialize (IHl (k_fail k rx) S (e, e) ltac:(discriminate) (kids_okF_tail x (y :: l) Hk) Hi' (kstate_fail k S rx e Hhd Hra')).
@@ -970,29 +999,29 @@ Section Chain2F.
 
   Lemma chain_soundF : forall steps res done S, kids_okF fuel steps -> incl (flat_map sids steps) S ->
     match chain_raw (rawF fuel) res steps with
-    | (Ret v, body) => fst (fst (chain_exp (exp fuel) res done steps)) = Ret v /\ all_none body
+    | (Ret v, body) => fst (fst (chain_exp (exp fuel) res done steps)) = Ret v
     | (Exc e, body) => exists trs,
         chain_exp (exp fuel) res done steps = (Exc e, map (fun st => TR (fst st) (snd st) None []) done ++ trs, e) /\
         finish body = trs /\ head_err body = Some e /\ raised e S end.
   Proof.
     induction steps as [|s steps IHs]; intros res done S Hk Hi.
-    - cbn [chain_raw chain_exp fst]. split; [reflexivity|constructor].
+    - cbn [chain_raw chain_exp fst]. reflexivity.
     - destruct (Hk s (or_introl eq_refl)) as (Hd & Hw).
-      destruct (IH s res Hd Hw) as (Ho & Hok & Hex).
+      destruct (IH s res Hd Hw) as (Ho & Hex).
       assert (His : incl (sids s) S) by (intros y Hy; apply Hi; cbn [flat_map]; apply in_or_app; left; exact Hy).
       assert (Hi' : incl (flat_map sids steps) S) by (intros y Hy; apply Hi; cbn [flat_map]; apply in_or_app; right; exact Hy).
       destruct steps as [|s2 rest].
       + cbn [chain_raw chain_exp].
         destruct (rawF fuel s res) as [o rs]. destruct (exp fuel s res) as [[o' ts] es]. cbn [fst snd] in *. subst o'.
         destruct o as [v|e].
-        * cbn [fst]. split; [reflexivity|apply (Hok v eq_refl)].
+        * cbn [fst]. reflexivity.
         * destruct (Hex e eq_refl) as (Hfin & -> & Hhd & Hra). exists ts. split; [reflexivity|]. split; [exact Hfin|]. split; [exact Hhd|].
           apply (raised_incl _ _ _ Hra His).
       + change (chain_raw (rawF fuel) res (s :: s2 :: rest)) with
           (match rawF fuel s res with
            | (Exc e, rs) => (Exc e, rs)
            | (Ret v, _) => match chain_raw (rawF fuel) v (s2 :: rest) with
-                           | (r, body) => (r, TR (sid_of s) res (err_of r) [] :: body) end end).
+                           | (r, body) => (r, under (sid_of s) res r body) end end).
         change (chain_exp (exp fuel) res done (s :: s2 :: rest)) with
           (match exp fuel s res with
            | (Ret v, _, _) => chain_exp (exp fuel) v (done ++ [(sid_of s, res)]) (s2 :: rest)
@@ -1001,11 +1030,11 @@ Section Chain2F.
         destruct o as [v|e].
         * specialize (IHs v (done ++ [(sid_of s, res)]) S (fun y Hy => Hk y (or_intror Hy)) Hi').
           destruct (chain_raw (rawF fuel) v (s2 :: rest)) as [[v2|e] body2].
-          -- destruct IHs as [H1 H2]. split; [exact H1|]. constructor; [reflexivity|exact H2].
+          -- exact IHs.
           -- destruct IHs as (trs2 & Hce & Hfin2 & Hhd2 & Hra2).
              exists (TR (sid_of s) res None [] :: trs2). split; [|split; [|split]].
              ++ rewrite Hce. rewrite map_app. cbn [map fst snd]. rewrite <- app_assoc. reflexivity.
-             ++ cbn [err_of]. rewrite (finish_same (TR (sid_of s) res (Some e) []) body2 e eq_refl Hhd2). cbn [tr_clear]. rewrite Hfin2. reflexivity.
+             ++ cbn [under]. rewrite (finish_same (TR (sid_of s) res (Some e) []) body2 e eq_refl Hhd2). cbn [tr_clear]. rewrite Hfin2. reflexivity.
              ++ reflexivity.
              ++ exact Hra2.
         * destruct (Hex e eq_refl) as (Hfin & -> & Hhd & Hra). exists ts. split; [reflexivity|]. split; [exact Hfin|]. split; [exact Hhd|].
@@ -1034,15 +1063,15 @@ Section Chain2F.
       { intros y Hy. apply Hi. cbn [flat_map pair_sids]. apply in_or_app. left. apply in_or_app. right. exact Hy. }
       assert (Hi' : incl (flat_map pair_sids cs) S).
       { intros y Hy. apply Hi. cbn [flat_map]. apply in_or_app. right. exact Hy. }
-      destruct (IH key t Hdk Hwk) as (Ho & Hok & Hex).
+      destruct (IH key t Hdk Hwk) as (Ho & Hex).
       destruct (rawF fuel key t) as [o rk]. destruct (exp fuel key t) as [[o' tk] ek]. cbn [fst snd] in *. subst o'.
       destruct o as [v0|e].
       + (* the key passes: the value decides *)
-        destruct (IH v t Hdv Hwv) as (Hov & Hokv & Hexv).
+        destruct (IH v t Hdv Hwv) as (Hov & Hexv).
         destruct (rawF fuel v t) as [ov rv]. destruct (exp fuel v t) as [[ov' tv] ev]. cbn [fst snd] in *. subst ov'.
-        destruct ov as [x|e]; cbn [k_after err_of].
+        destruct ov as [x|e]; cbn [k_after under].
         * cbn [fst]. split; [reflexivity|]. split; [|reflexivity].
-          apply kstate_ok. constructor; [reflexivity|apply (Hokv x eq_refl)].
+          apply kstate_ok.
         * destruct (Hexv e eq_refl) as (Hfin & -> & Hhd & Hra). right.
           assert (Hfx : finish (TR (sid_of key) t (Some e) [] :: rv) = TR (sid_of key) t None [] :: tv).
           { rewrite (finish_same (TR (sid_of key) t (Some e) []) rv e eq_refl Hhd). cbn [tr_clear]. rewrite Hfin. reflexivity. }
@@ -1081,29 +1110,28 @@ Qed.
 Theorem all_sound2F : forall fuel, sound2F fuel.
 Proof.
   induction fuel as [|fuel IH]; intros s t Hd Hw; [lia|].
-  destruct s as [n ok|n|n l|n l|n l|n l|n cs|n ok kid].
+  destruct s as [n ok|n|n l|n l|n l|n l|n cs|n ok kid|n l].
   - (* Leaf *)
     cbn [rawF exp]. destruct ok; cbn [fst snd].
-    + split; [reflexivity|]. split; [intros v _; constructor; [reflexivity|constructor]|discriminate].
-    + split; [reflexivity|]. split; [discriminate|]. intros e He. injection He as <-.
+    + split; [reflexivity|discriminate].
+    + split; [reflexivity|]. intros e He. injection He as <-.
       split; [reflexivity|]. split; [reflexivity|]. split; [reflexivity|]. exists n. split; [left; reflexivity|left; reflexivity].
   - (* SkipLeaf *)
-    cbn [rawF exp fst snd]. split; [reflexivity|]. split; [intros v _; constructor; [reflexivity|constructor]|discriminate].
+    cbn [rawF exp fst snd]. split; [reflexivity|discriminate].
   - (* Nest *)
     destruct Hw as [Hn Hf]. cbn [sids] in Hn, Hf.  cbn [tdepth] in Hd.
     pose proof (kids_okF_of fuel n l Hd Hn Hf) as Hk.
     pose proof (nest_soundF fuel IH t n l k0 (flat_map sids l) Hk (incl_refl _) (kstate_k0 _) eq_refl eq_refl) as H.
     cbn [rawF exp]. destruct (nest_raw (rawF fuel) t l k0) as [[e|] k2].
-    + destruct H as [Hexp Hra]. rewrite Hexp. cbn [fst snd]. split; [reflexivity|]. split; [discriminate|].
+    + destruct H as [Hexp Hra]. rewrite Hexp. cbn [fst snd]. split; [reflexivity|].
       intros e0 He0. injection He0 as <-. split; [reflexivity|]. split; [reflexivity|]. split; [apply head_err_assemble|].
       eapply raised_incl; [exact Hra|]. cbn [sids]. apply incl_tl. apply incl_refl.
-    + destruct H as (Hexp & Hks & Hft & Hlf). rewrite Hexp. cbn [fst snd]. split; [reflexivity|].
-      split; [intros v _; apply (assemble_all_none n t k2 _ Hks Hlf)|discriminate].
+    + destruct H as (Hexp & Hks & Hft & Hlf). rewrite Hexp. cbn [fst snd]. split; [reflexivity|discriminate].
   - (* Chain *)
     destruct Hw as [Hn Hf]. cbn [sids] in Hn, Hf. cbn [tdepth] in Hd.
     pose proof (kids_okF_of fuel n l Hd Hn Hf) as Hk.
     destruct l as [|s0 rest].
-    + cbn [rawF exp chain_exp fst snd]. split; [reflexivity|]. split; [intros v _; constructor; [reflexivity|constructor]|discriminate].
+    + cbn [rawF exp chain_exp fst snd]. split; [reflexivity|discriminate].
     + pose proof (chain_soundF fuel IH (s0 :: rest) t [] (flat_map sids (s0 :: rest)) Hk (incl_refl _)) as H.
       cbn [rawF].
       change (exp (S fuel) (Chain n (s0 :: rest)) t) with
@@ -1111,13 +1139,12 @@ Proof.
          | (Ret v, _, _) => (Ret v, [], 0)
          | (Exc e, trs, es) => (Exc e, above n t e trs (match trs with TR _ _ None _ :: _ => e | _ => es end), e) end).
       destruct (chain_raw (rawF fuel) t (s0 :: rest)) as [[v|e] body].
-      * destruct H as [H1 H2]. destruct (chain_exp (exp fuel) t [] (s0 :: rest)) as [[o trs] es]. cbn [fst] in H1. subst o.
-        cbn [fst snd err_of k_after]. split; [reflexivity|]. split; [|discriminate]. intros v0 _.
-        unfold assemble, k_ok, k0. cbn [k_has k_ft k_lf k_lr negb andb]. constructor; [reflexivity|exact H2].
+      * rename H into H1. destruct (chain_exp (exp fuel) t [] (s0 :: rest)) as [[o trs] es]. cbn [fst] in H1. subst o.
+        cbn [fst snd err_of k_after]. split; [reflexivity|discriminate].
       * destruct H as (trs & Hce & Hfin & Hhd & Hra). rewrite Hce. cbn [map app fst snd err_of k_after].
         assert (Hm : match trs with TR _ _ None _ :: _ => e | _ => e end = e) by (destruct trs as [|[? ? [?|] ?] ?]; reflexivity).
         rewrite Hm. rewrite above_sameF.
-        split; [reflexivity|]. split; [discriminate|]. intros e0 He0. injection He0 as <-.
+        split; [reflexivity|]. intros e0 He0. injection He0 as <-.
         unfold assemble, k_fail, k0. cbn [k_has k_ft k_lf k_lr negb andb app].
         split; [rewrite (finish_same (TR n t (Some e) []) body e eq_refl Hhd); cbn [tr_clear]; rewrite Hfin; reflexivity|].
         split; [reflexivity|]. split; [reflexivity|]. eapply raised_incl; [exact Hra|]. cbn [sids]. apply incl_tl. apply incl_refl.
@@ -1130,14 +1157,14 @@ Proof.
     cbn [rawF exp]. destruct (alt_raw (rawF fuel) t l k0) as [[v|] k2].
     + destruct H as (Hexp & Hks & Hlf).
       destruct (alt_exp (exp fuel) t l [] false) as [[o fl] lfl]. cbn [fst] in Hexp. subst o. cbn [fst snd].
-      split; [reflexivity|]. split; [intros v0 _; apply (assemble_all_none n t k2 _ Hks Hlf)|discriminate].
-    + destruct H as (Hexp & Hks). rewrite Hexp. destruct Hks as (K1 & K2 & K3).
+      split; [reflexivity|discriminate].
+    + destruct H as (Hexp & Hks). rewrite Hexp. destruct Hks as (K1 & K3).
       assert (Hraised : raised (5000 + n) (sids (Alt n l))) by (exists n; split; [left; reflexivity|right; left; reflexivity]).
       unfold assemble. destruct (k_has k2) eqn:Hhas; cbn [negb].
       * destruct (k_lf k2) eqn:Hlf.
         -- destruct (K3 eq_refl) as (_ & ft' & e' & Hft & Hhd & Hra). rewrite Hft.
            destruct ft' as [|a r].
-           ++ cbn [app andb fst snd]. split; [reflexivity|]. split; [discriminate|].
+           ++ cbn [app andb fst snd]. split; [reflexivity|].
               intros e0 He0. injection He0 as <-.
               split; [|split; [reflexivity|split; [reflexivity|exact Hraised]]].
               apply (finish_diff (TR n t (Some (5000 + n)) []) (k_lr k2) (5000 + n) e' eq_refl Hhd).
@@ -1145,32 +1172,32 @@ Proof.
            ++ assert (E2 : match (a :: r) ++ [finish (k_lr k2)] with [x] => [] | l0 => l0 end = (a :: r) ++ [finish (k_lr k2)])
                 by (destruct r; reflexivity).
               rewrite E2.
-              assert (E3 : (match (a :: r) ++ [finish (k_lr k2)] with [] => false | _ => true end) = true) by reflexivity.
+              assert (E3 : (match (a :: r) ++ [finish (k_lr k2)] with [] => true | _ => false end) = false) by reflexivity.
               rewrite E3. cbn [andb].
               assert (E4 : (match (a :: r) ++ [finish (k_lr k2)] with
                             | [one] => (Exc (5000 + n), TR n t (Some (5000 + n)) [] :: one, 5000 + n)
                             | failed => (Exc (5000 + n), [TR n t (Some (5000 + n)) failed], 5000 + n) end)
                            = (Exc (5000 + n), [TR n t (Some (5000 + n)) ((a :: r) ++ [finish (k_lr k2)])], 5000 + n))
                 by (destruct r; reflexivity).
-              cbn [fst snd]. split; [destruct r; reflexivity|]. split; [discriminate|].
+              cbn [fst snd]. split; [destruct r; reflexivity|].
               intros e0 He0. injection He0 as <-.
               split; [destruct r; reflexivity|]. split; [destruct r; reflexivity|]. split; [reflexivity|exact Hraised].
-        -- cbn [andb]. pose proof (K2 eq_refl) as Hnone.
+        -- cbn [andb].
            assert (E2 : match k_ft k2 with [x] => [x] | l0 => l0 end = k_ft k2) by (destruct (k_ft k2) as [|x [|y r]]; reflexivity).
            rewrite E2.
-           split; [destruct (k_ft k2) as [|x [|y r]]; reflexivity|]. split; [discriminate|].
+           split; [destruct (k_ft k2) as [|x [|y r]]; reflexivity|].
            intros e0 He0. injection He0 as <-.
            split; [|split; [destruct (k_ft k2) as [|x [|y r]]; reflexivity|split; [reflexivity|exact Hraised]]].
-           cbn [snd]. rewrite (finish_above_ok (TR n t (Some (5000 + n)) (k_ft k2)) (k_lr k2) (5000 + n) eq_refl Hnone).
+           cbn [snd]. rewrite finish_one.
            destruct (k_ft k2) as [|x [|y r]]; reflexivity.
       * destruct (K1 eq_refl) as [Hft Hlf]. rewrite Hft. try rewrite Hlf. cbn [fst snd].
-        split; [reflexivity|]. split; [discriminate|].
+        split; [reflexivity|].
         intros e0 He0. injection He0 as <-. split; [reflexivity|]. split; [reflexivity|]. split; [reflexivity|exact Hraised].
   - (* OrS *)
     destruct Hw as [Hn Hf]. cbn [sids] in Hn, Hf.  cbn [tdepth] in Hd.
     pose proof (kids_okF_of fuel n l Hd Hn Hf) as Hk.
     destruct l as [|b l].
-    + cbn [rawF exp or_raw fst snd]. split; [reflexivity|]. split; [intros v _; constructor; [reflexivity|constructor]|discriminate].
+    + cbn [rawF exp or_raw fst snd]. split; [reflexivity|discriminate].
     + pose proof (or_soundF fuel IH t (b :: l) k0 (flat_map sids (b :: l)) (0, 0) ltac:(discriminate) Hk (incl_refl _) (kstate_k0 _)) as H.
       cbn [k0 k_ft] in H.
       cbn [rawF]. change (exp (S fuel) (OrS n (b :: l)) t) with
@@ -1181,23 +1208,23 @@ Proof.
       destruct (or_raw (rawF fuel) t (b :: l) k0) as [[v|e] k2].
       * destruct H as (Hexp & Hks & Hlf).
         destruct (or_exp (exp fuel) t (b :: l) [] (0, 0)) as [[o fl] lst]. cbn [fst] in Hexp. subst o. cbn [fst snd].
-        split; [reflexivity|]. split; [intros v0 _; apply (assemble_all_none n t k2 _ Hks Hlf)|discriminate].
+        split; [reflexivity|discriminate].
       * destruct H as (Hexp & Hks & Hlf & Hhd & Hra). rewrite Hexp.
-        destruct Hks as (K1 & K2 & K3). destruct (K3 Hlf) as (Hhas & ft' & e' & Hft & _ & _).
+        destruct Hks as (K1 & K3). destruct (K3 Hlf) as (Hhas & ft' & e' & Hft & _ & _).
         assert (Hraised : raised e (sids (OrS n (b :: l)))).
         { eapply raised_incl; [exact Hra|]. cbn [sids]. apply incl_tl. apply incl_refl. }
         unfold assemble. rewrite Hhas, Hlf, Hft. cbn [negb].
         destruct ft' as [|a r].
-        -- cbn [app andb fst snd]. rewrite above_sameF. split; [reflexivity|]. split; [discriminate|].
+        -- cbn [app andb fst snd]. rewrite above_sameF. split; [reflexivity|].
            intros e0 He0. injection He0 as <-.
            split; [|split; [reflexivity|split; [reflexivity|exact Hraised]]].
            rewrite (finish_same (TR n t (Some e) []) (k_lr k2) e eq_refl Hhd). reflexivity.
         -- assert (E2 : match (a :: r) ++ [finish (k_lr k2)] with [x] => [] | l0 => l0 end = (a :: r) ++ [finish (k_lr k2)])
              by (destruct r; reflexivity).
            rewrite E2.
-           assert (E3 : (match (a :: r) ++ [finish (k_lr k2)] with [] => false | _ => true end) = true) by reflexivity.
+           assert (E3 : (match (a :: r) ++ [finish (k_lr k2)] with [] => true | _ => false end) = false) by reflexivity.
            rewrite E3. cbn [andb fst snd].
-           split; [destruct r; reflexivity|]. split; [discriminate|].
+           split; [destruct r; reflexivity|].
            intros e0 He0. injection He0 as <-.
            split; [destruct r; reflexivity|]. split; [destruct r; reflexivity|]. split; [reflexivity|exact Hraised].
   - (* Switch *)
@@ -1212,14 +1239,14 @@ Proof.
     cbn [rawF exp]. destruct (switch_raw (rawF fuel) (5000 + n) t cs k0) as [[x|e] k2].
     + destruct H as (Hexp & Hks & Hlf).
       destruct (switch_exp (exp fuel) t cs []) as [[o fl] m]. cbn [fst] in Hexp. subst o. cbn [fst snd err_of].
-      split; [reflexivity|]. split; [intros v0 _; apply (assemble_all_none n t k2 _ Hks Hlf)|discriminate].
+      split; [reflexivity|discriminate].
     + destruct H as [(-> & Hexp & Hks & Hhl)|(Hexp & Hks & Hlf & Hhas & Hhd & Hra)]; rewrite Hexp; cbn [err_of];
-        destruct Hks as (K1 & K2 & K3); unfold assemble.
+        destruct Hks as (K1 & K3); unfold assemble.
       * (* every key failed *)
         destruct (k_has k2) eqn:Hhas; cbn [negb].
         -- rewrite (Hhl eq_refl) in *. destruct (K3 eq_refl) as (_ & ft' & e' & Hft & Hhd & Hra). rewrite Hft.
            destruct ft' as [|a r].
-           ++ cbn [app andb fst snd]. split; [reflexivity|]. split; [discriminate|].
+           ++ cbn [app andb fst snd]. split; [reflexivity|].
               intros e0 He0. injection He0 as <-.
               split; [|split; [reflexivity|split; [reflexivity|exact Hraised]]].
               apply (finish_diff (TR n t (Some (5000 + n)) []) (k_lr k2) (5000 + n) e' eq_refl Hhd).
@@ -1227,50 +1254,59 @@ Proof.
            ++ assert (E2 : match (a :: r) ++ [finish (k_lr k2)] with [x] => [] | l0 => l0 end = (a :: r) ++ [finish (k_lr k2)])
                 by (destruct r; reflexivity).
               rewrite E2.
-              assert (E3 : (match (a :: r) ++ [finish (k_lr k2)] with [] => false | _ => true end) = true) by reflexivity.
+              assert (E3 : (match (a :: r) ++ [finish (k_lr k2)] with [] => true | _ => false end) = false) by reflexivity.
               rewrite E3. cbn [andb fst snd].
-              split; [destruct r; reflexivity|]. split; [discriminate|].
+              split; [destruct r; reflexivity|].
               intros e0 He0. injection He0 as <-.
               split; [destruct r; reflexivity|]. split; [destruct r; reflexivity|]. split; [reflexivity|exact Hraised].
         -- destruct (K1 eq_refl) as [Hft Hlf]. rewrite Hft. cbn [fst snd].
-           split; [reflexivity|]. split; [discriminate|].
+           split; [reflexivity|].
            intros e0 He0. injection He0 as <-. split; [reflexivity|]. split; [reflexivity|]. split; [reflexivity|exact Hraised].
       * (* a key passed and its value spec failed *)
         rewrite Hhas, Hlf. cbn [negb]. destruct (K3 Hlf) as (_ & ft' & e' & Hft & _ & _). rewrite Hft.
         assert (Hraised' : raised e (sids (Switch n cs))).
         { eapply raised_incl; [exact Hra|]. cbn [sids]. apply incl_tl. apply incl_refl. }
         destruct ft' as [|a r].
-        -- cbn [app andb fst snd]. split; [reflexivity|]. split; [discriminate|].
+        -- cbn [app andb fst snd]. split; [reflexivity|].
            intros e0 He0. injection He0 as <-.
            split; [|split; [reflexivity|split; [reflexivity|exact Hraised']]].
            rewrite (finish_same (TR n t (Some e) []) (k_lr k2) e eq_refl Hhd). reflexivity.
         -- assert (E2 : match (a :: r) ++ [finish (k_lr k2)] with [x] => [] | l0 => l0 end = (a :: r) ++ [finish (k_lr k2)])
              by (destruct r; reflexivity).
            rewrite E2.
-           assert (E3 : (match (a :: r) ++ [finish (k_lr k2)] with [] => false | _ => true end) = true) by reflexivity.
+           assert (E3 : (match (a :: r) ++ [finish (k_lr k2)] with [] => true | _ => false end) = false) by reflexivity.
            rewrite E3. cbn [andb fst snd].
-           split; [destruct r; reflexivity|]. split; [discriminate|].
+           split; [destruct r; reflexivity|].
            intros e0 He0. injection He0 as <-.
            split; [destruct r; reflexivity|]. split; [destruct r; reflexivity|]. split; [reflexivity|exact Hraised'].
   - (* Guard *)
     destruct Hw as [Hn Hf]. cbn [sids] in Hn, Hf.  cbn [tdepth] in Hd.
     inversion Hn as [|? ? Hni Hnd]; subst. inversion Hf as [|? ? Hlt Hfl]; subst.
     assert (Hdk : tdepth kid < fuel) by lia.
-    destruct (IH kid t Hdk (conj Hnd Hfl)) as (Ho & Hok & Hex).
+    destruct (IH kid t Hdk (conj Hnd Hfl)) as (Ho & Hex).
     cbn [rawF exp]. destruct (rawF fuel kid t) as [o rk]. destruct (exp fuel kid t) as [[o' tk] ek]. cbn [fst snd] in *. subst o'.
     destruct o as [v|e].
-    + pose proof (Hok v eq_refl) as Hnone. destruct ok; cbn [fst snd].
-      * split; [reflexivity|]. split; [|discriminate]. intros v0 _.
-        unfold assemble, k_ok, k0. cbn [k_has k_ft k_lf k_lr negb andb]. constructor; [reflexivity|exact Hnone].
-      * split; [reflexivity|]. split; [discriminate|]. intros e0 He0. injection He0 as <-.
+    + destruct ok; cbn [fst snd].
+      * split; [reflexivity|discriminate].
+      * split; [reflexivity|]. intros e0 He0. injection He0 as <-.
         unfold assemble, k_ok, k0. cbn [k_has k_ft k_lf k_lr negb andb].
-        split; [apply (finish_above_ok (TR n t (Some (6000 + n)) []) rk (6000 + n) eq_refl Hnone)|].
+        split; [apply finish_one|].
         split; [reflexivity|]. split; [reflexivity|]. exists n. split; [left; reflexivity|right; right; reflexivity].
     + destruct (Hex e eq_refl) as (Hfin & -> & Hhd & Hra). cbn [fst snd]. rewrite above_sameF.
-      split; [reflexivity|]. split; [discriminate|]. intros e0 He0. injection He0 as <-.
+      split; [reflexivity|]. intros e0 He0. injection He0 as <-.
       unfold assemble, k_fail, k0. cbn [k_has k_ft k_lf k_lr negb andb app].
       split; [rewrite (finish_same (TR n t (Some e) []) rk e eq_refl Hhd); cbn [tr_clear]; rewrite Hfin; reflexivity|].
       split; [reflexivity|]. split; [reflexivity|]. eapply raised_incl; [exact Hra|]. cbn [sids]. apply incl_tl. apply incl_refl.
+  - (* AltD: never fails *)
+    destruct Hw as [Hn Hf]. cbn [sids] in Hn, Hf.  cbn [tdepth] in Hd.
+    pose proof (kids_okF_of fuel n l Hd Hn Hf) as Hk.
+    pose proof (alt_soundF fuel IH t l k0 (flat_map sids l) Hk (incl_refl _) (kstate_k0 _)) as H.
+    cbn [k0 k_ft k_lf] in H.
+    cbn [rawF exp]. destruct (alt_raw (rawF fuel) t l k0) as [[v|] k2].
+    + destruct H as (Hexp & Hks & Hlf).
+      destruct (alt_exp (exp fuel) t l [] false) as [[o fl] lfl]. cbn [fst] in Hexp. subst o. cbn [fst snd].
+      split; [reflexivity|discriminate].
+    + destruct H as (Hexp & Hks). rewrite Hexp. cbn [fst snd]. split; [reflexivity|discriminate].
 Qed.
 
 Lemma WF_root : WF root_store.
@@ -1283,9 +1319,9 @@ Proof.
   intros Hw. unfold run, expected.
   destruct (glom_ (S (tdepth s)) root_store 0 root_target s) as [st r] eqn:E.
   destruct (all_goodF (S (tdepth s)) root_store 0 root_target s st r (Nat.lt_succ_diag_r _) (Nat.lt_0_succ _) WF_root E)
-    as ((Hlen & _ & Hsb & _ & Hrd) & Hr & _).
+    as ((Hlen & _ & Hsb & _ & Hrd & _) & Hr & _).
   cbn [List.length root_store] in Hlen, Hsb, Hrd.
-  destruct (all_sound2F (S (tdepth s)) s root_target (Nat.lt_succ_diag_r _) Hw) as (Ho & _ & Hex).
+  destruct (all_sound2F (S (tdepth s)) s root_target (Nat.lt_succ_diag_r _) Hw) as (Ho & Hex).
   destruct (exp (S (tdepth s)) s root_target) as [[o' T] es]. cbn [fst snd] in *.
   split; [rewrite Hr; exact Ho|].
   intros e He. subst r.
@@ -1300,10 +1336,10 @@ Proof.
   apply (Hex e He).
 Qed.
 
-(* non-vacuity: chains inside branches inside chains, a Switch, a guard *)
+(* non-vacuity: chains inside branches inside chains, a Switch, a guard, a Coalesce that recovers through its default *)
 Definition full_example : tspec :=
   Chain 1 [Leaf 2 true;
-           Alt 3 [Chain 4 [Leaf 5 true; OrS 6 [Leaf 7 false; Chain 8 [Leaf 9 true; Leaf 10 false]]];
+           Alt 3 [Chain 4 [AltD 21 [Leaf 22 false; SkipLeaf 23]; OrS 6 [Leaf 7 false; Chain 8 [Leaf 9 true; Leaf 10 false]]];
                   Switch 11 [(Leaf 12 false, Leaf 13 true); (Guard 14 true (Leaf 15 true), Chain 16 [Leaf 17 true; Leaf 18 false])];
                   SkipLeaf 19];
            Leaf 20 true].
